@@ -512,6 +512,16 @@ class LegacyOpensslVersion(Version):
             return other.is_prerelease()
         return self.value.__gt__(other.value)
 
+    def __le__(self, other):
+        if not isinstance(other, self.__class__):
+            return NotImplemented
+        return self.__lt__(other) or self == other
+
+    def __ge__(self, other):
+        if not isinstance(other, self.__class__):
+            return NotImplemented
+        return self.__gt__(other) or self == other
+
     def is_prerelease(self):
         return self.patch.startswith(("-beta", "-alpha"))
 
